@@ -11,7 +11,7 @@ import lazy_dataset
 
 class P(piperun.PipeProperty):
     prop = 'C14'
-    views = ('direct', 'direct', 'copy', 'direct', 'freeze', 'direct', 'profiled', 'direct', 'direct', 'direct', 'direct')
+    views = ('direct', 'direct', 'copy', 'direct', 'freeze', 'direct', 'profiled', 'direct', 'lazy_apply', 'direct', 'direct')
     fields = ('build', 'iter', 'items')
     required_ops = ('catch', 'prefetch', 'filterLazy', 'filterEager')
     weights = {'catch': 5.0, 'mapRaise': 5.0, 'prefetch': 2.5, 'filterLazy': 2.0, 'filterEager': 2.0,
